@@ -94,6 +94,10 @@ def tmpdir():
 # ----------------------------------------------------------------------------- canonical form (bit-exact) of anything
 
 
+# lazily filled caches of caller objects (Dataset.get_one_hot_encoding): filling one is not a modification of the data
+LAZY_CACHES = {"_one_hot_encoding"}
+
+
 def _h(b: bytes) -> str:
     return hashlib.sha1(b).hexdigest()[:16]
 
@@ -161,7 +165,7 @@ def canon(x, _seen=None, _depth=0):
                     d.setdefault(s, getattr(x, s))
     if d is not None:
         _seen = _seen | {id(x)}
-        return ("obj", type(x).__name__, tuple((k, canon(v, _seen, _depth + 1)) for k, v in d.items()))
+        return ("obj", type(x).__name__, tuple((k, canon(v, _seen, _depth + 1)) for k, v in d.items() if k not in LAZY_CACHES))
     return ("repr", type(x).__name__, repr(x))
 
 
